@@ -48,6 +48,12 @@ CHECKS = {
  'C06': ('exploration', 'ovl', 'reference authorisation table + sequential store model as oracle over the enumerated endpoint x credential x target x body-shape matrix, with byte-level directory snapshots around every request',
          'The matrix (about 1800 cells per state incl. expired/future/tampered/other-instance/demoted-admin/removed-user tokens, case-variant and invalid names, malformed bodies, ambiguous update credentials) is evaluated in several store states reached by random walks of allowed requests; refused requests must return a non-success status, disclose no list and leave the directory byte-identical; allowed ones must have exactly the model effect.',
          'Handlers are driven in-process (httptest) with a test-owned session factory (the only way to mint expired tokens) plus a subset through newWebHandler itself.', '5 C06'),
+ 'C12': ('exploration', 'ovl', 'before/after record monitor (strict reference parser + digest recomputation) around logins on every frontend, with a FIFO barrier instead of waiting; directory snapshots incl. inodes; master-side request recorder for remote mode',
+         'Library: upgradeable flag for every record x default x password. Agent: logins with right/wrong/near-miss passwords over all five frontends on stores mixing 4 parameter sets, every default (also switched by SIGHUP), with and without policy: record byte-identical or strict record under the default for exactly the login password with same extension and auxiliary bytes; must be rewritten on an idle agent when policy allows; converges; failed logins and upgrades-off change nothing (inode level); remote mode posts user + old password only and never touches the slave directory.',
+         'Convergence restated with a FIFO barrier; remote POST awaited through the remote.done hook with a watchdog.', '5 C12'),
+ 'C17': ('exploration', 'ovl', 'reference policy (zxcvbn called directly) as oracle over all write paths incl. the built binary, with directory snapshots; sandwich oracle over condition strings',
+         'Every write path (interface init/add/update, HTTP add/update by admin, own session and old password, CLI init/add/update of the binary, login-triggered upgrade) x condition kinds/thresholds x a password corpus x user names: refused exactly when the reference verdict fails, refused requests leave the directory identical; about 85 malformed or borderline condition strings and unknown types must stop constructor, NewStore and the binary, or be enforced with the written value.',
+         'zxcvbn library trusted (the property defines the policy by it).', '5 C17'),
 }
 
 def main():
